@@ -513,6 +513,7 @@ void reb_integrator_trace_kepler_step(struct reb_simulation* const r, const doub
 
 
 void reb_integrator_trace_part1(struct reb_simulation* r){
+    r->gravity_ignore_terms = 0; // The FULL pericentre prescriptions use REB_GRAVITY_BASIC and need all pair terms.
     // Do memory management and consistency checks in part1.
     // Actual integration is happening in part2.
     struct reb_integrator_trace* const ri_trace = &(r->ri_trace);
